@@ -22,17 +22,17 @@ def _t(mod, *names):
     return [(n, "FlooVerif.Props." + mod) for n in names]
 
 THEOREMS = {
-    "C01": _t("HwTieShape", "FlooVerif.HwTie.rtl_shape") + _t("C01", "FlooVerif.C01.holds_iff_spec", "FlooVerif.C01.matching_stable") +
+    "C01": _t("HwTieShape", "FlooVerif.HwTie.rtl_shape") + _t("HwTieWhole", "FlooVerif.HwTie.selectAll_pinned", "FlooVerif.HwTie.routerAll_pinned", "FlooVerif.HwTie.compAll_pinned") + _t("HwTiePorts", "FlooVerif.HwTie.chimneyIds_pinned") + _t("C01", "FlooVerif.C01.holds_iff_spec", "FlooVerif.C01.matching_stable") +
            _t("C01U", "FlooVerif.C01U.sam_decodes_owner", "FlooVerif.C01U.overlap_rejected", "FlooVerif.C01U.rule_origin") +
            [("FlooVerif.checkNoOverlap_iff", "FlooVerif.Lemmas.RouteMapLemmas")],
-    "C02": _t("HwTieShape", "FlooVerif.HwTie.rtl_shape") + _t("C02", "FlooVerif.C02.arrives_of_potential", "FlooVerif.C02.trace_nodup", "FlooVerif.C02.walk_fuel_mono") +
+    "C02": _t("HwTieShape", "FlooVerif.HwTie.rtl_shape") + _t("HwTieWhole", "FlooVerif.HwTie.selectAll_pinned", "FlooVerif.HwTie.routerAll_pinned") + _t("C02", "FlooVerif.C02.arrives_of_potential", "FlooVerif.C02.trace_nodup", "FlooVerif.C02.walk_fuel_mono") +
            _t("C02U", "FlooVerif.C02U.tables_deliver", "FlooVerif.C02U.next_is_closer", "FlooVerif.C02U.remaining_decreases"),
-    "C03": _t("HwTieSrc", "FlooVerif.HwTie.src_agrees", "FlooVerif.HwTie.src_is_srcPop") + _t("HwTieShape", "FlooVerif.HwTie.rtl_shape") + _t("C03", "FlooVerif.C03.pack_unpack", "FlooVerif.C03.pack_lt", "FlooVerif.C03.port_fits"),
-    "C04": _t("HwTie", "FlooVerif.HwTie.xy_agrees") + _t("HwTieMask", "FlooVerif.HwTie.mask_agrees") + _t("HwTieShape", "FlooVerif.HwTie.rtl_shape") + _t("C04", "FlooVerif.C04.lockstep", "FlooVerif.C04.step_closer", "FlooVerif.C04.no_y_to_x_turn",
+    "C03": _t("HwTieWhole", "FlooVerif.HwTie.selectAll_pinned", "FlooVerif.HwTie.routerAll_pinned", "FlooVerif.HwTie.compAll_pinned") + _t("HwTiePorts", "FlooVerif.HwTie.chimneyIds_pinned") + _t("HwTieSrc", "FlooVerif.HwTie.src_agrees", "FlooVerif.HwTie.src_is_srcPop") + _t("HwTieShape", "FlooVerif.HwTie.rtl_shape") + _t("C03", "FlooVerif.C03.pack_unpack", "FlooVerif.C03.pack_lt", "FlooVerif.C03.port_fits"),
+    "C04": _t("HwTieWhole", "FlooVerif.HwTie.selectAll_pinned", "FlooVerif.HwTie.routerAll_pinned") + _t("HwTie", "FlooVerif.HwTie.xy_agrees") + _t("HwTieMask", "FlooVerif.HwTie.mask_agrees") + _t("HwTieShape", "FlooVerif.HwTie.rtl_shape") + _t("C04", "FlooVerif.C04.lockstep", "FlooVerif.C04.step_closer", "FlooVerif.C04.no_y_to_x_turn",
               "FlooVerif.C04.column_decision", "FlooVerif.C04.allowed_y_continuation", "FlooVerif.C04.dor_reaches") +
            _t("C07XY", "FlooVerif.C07U.xy_ids_fit") +
            _t("C04U", "FlooVerif.C04U.array_is_grid", "FlooVerif.C04U.wiring_agrees_with_move"),
-    "C05": _t("C05", "FlooVerif.C05U.fillFree_paired", "FlooVerif.C05U.paired_same_neighbour") +
+    "C05": _t("HwTieWrap", "FlooVerif.HwTie.axiRouter_pinned", "FlooVerif.HwTie.nwRouter_pinned") + _t("C05", "FlooVerif.C05U.fillFree_paired", "FlooVerif.C05U.paired_same_neighbour") +
            _t("C05Full", "FlooVerif.C05U.routers_paired", "FlooVerif.C05U.router_paired", "FlooVerif.C05U.place_spec",
               "FlooVerif.C05U.place_keys", "FlooVerif.C05U.pairedGraph_of_B", "FlooVerif.C05U.onlyLinks_of_B") +
            _t("C05Graph", "FlooVerif.C05G.generated_routers_paired", "FlooVerif.C05G.createNetwork_inv",
@@ -45,7 +45,7 @@ THEOREMS = {
            _t("C04U", "FlooVerif.C04U.array_is_grid"),
     "C07": _t("C07", "FlooVerif.C07U.id_eq_uid", "FlooVerif.C07U.idOf_eq", "FlooVerif.C07U.uids_dense", "FlooVerif.C07U.id_fits") +
            _t("C07XY", "FlooVerif.C07U.xy_ids_fit", "FlooVerif.C07U.coord_fits", "FlooVerif.C07U.listMin_le", "FlooVerif.C07U.listMax_ge"),
-    "C08": _t("C08", "FlooVerif.C08U.portElem_depth", "FlooVerif.C08U.kept_length", "FlooVerif.C08U.portElem_single"),
+    "C08": _t("HwTiePorts", "FlooVerif.HwTie.setPorts_pinned") + _t("C08", "FlooVerif.C08U.portElem_depth", "FlooVerif.C08U.kept_length", "FlooVerif.C08U.portElem_single"),
     "C10": _t("C10", "FlooVerif.C10.no_output_on_error", "FlooVerif.C10.rejected_of_gen_error", "FlooVerif.C10.validate_ok",
               "FlooVerif.C10.reject_invalid_range", "FlooVerif.C10.reject_empty_range", "FlooVerif.C10.reject_contradictory_range",
               "FlooVerif.C10.reject_sbr_without_range", "FlooVerif.C10.reject_tableless_id_without_offset",
@@ -55,7 +55,7 @@ THEOREMS = {
            _t("C01U", "FlooVerif.C01U.overlap_rejected"),
     "C15": _t("C15", "FlooVerif.C15.out_independent_of_history", "FlooVerif.C15.mode_views", "FlooVerif.C15.full_files",
               "FlooVerif.C15.getOpt_perm"),
-    "C09": _t("C09", "FlooVerif.C09.acyclic_of_rankValid", "FlooVerif.C09.acyclic_of_certOk", "FlooVerif.C09.no_rank_of_cycle") +
+    "C09": _t("HwTieWhole", "FlooVerif.HwTie.selectAll_pinned", "FlooVerif.HwTie.routerAll_pinned") + _t("C09", "FlooVerif.C09.acyclic_of_rankValid", "FlooVerif.C09.acyclic_of_certOk", "FlooVerif.C09.no_rank_of_cycle") +
            [("FlooVerif.acyclic_of_rank", "FlooVerif.Lemmas.Paths")] +
            _t("C09U", "FlooVerif.C09U.tree_acyclic", "FlooVerif.C09U.rank_step", "FlooVerif.C09U.noret_of_nodup",
               "FlooVerif.C09U.turn_model_acyclic"),
@@ -78,7 +78,7 @@ THEOREMS = {
     "C18": _t("C18Names", "FlooVerif.C18N.name1_inj", "FlooVerif.C18N.name2_inj", "FlooVerif.C18N.split_unique") +
            _t("C18", "FlooVerif.C18.range_product", "FlooVerif.C18.range_error", "FlooVerif.C18.range_empty",
               "FlooVerif.C18.pyRange_eq_seqIncl", "FlooVerif.C18.idx_spec", "FlooVerif.C18.lvl_spec"),
-    "C19": _t("C19", "FlooVerif.C19.jobs_in_range", "FlooVerif.C19.base_addresses", "FlooVerif.C19.finite_ok",
+    "C19": _t("HwTieTb", "FlooVerif.HwTie.tbJobs_pinned") + _t("C19", "FlooVerif.C19.jobs_in_range", "FlooVerif.C19.base_addresses", "FlooVerif.C19.finite_ok",
               "FlooVerif.C19.access_len_le"),
     "C20": _t("C20", "FlooVerif.C20.manifests_ok", "FlooVerif.C20.closed_covers_reachable", "FlooVerif.C20.holds_spec"),
 }
